@@ -88,7 +88,7 @@ func (e *engine) Meta() harness.Meta {
 			"programs share data only through channels, mutexes and synchronized objects, as the property requires",
 		},
 		FaultKinds:    []string{"schedule_perturbation", "clock_jump", "interrupt"},
-		QuickCases:    6000,
+		QuickCases:    12000,
 		ThoroughCases: 400000,
 	}
 }
@@ -144,6 +144,13 @@ func (e *engine) Generate(seed uint64, idx int, tier string, avoid []harness.Fin
 		c.R = 2 + r.Intn(3)
 		for i := 0; i < c.R; i++ {
 			c.Work = append(c.Work, []string{"defvar", "defun", "generic", "print", "lambda", "exit", "exit", "defclass", "defflavor"}[r.Intn(9)])
+		}
+		if r.Pct(35) {
+			// homogeneous: every routine does the same kind of work, which is
+			// what makes two routines meet in the same interpreter code
+			for i := range c.Work {
+				c.Work[i] = c.Work[0]
+			}
 		}
 	}
 	c.Policy = []string{sched.PolicyRandom, sched.PolicyRandom, sched.PolicyPCT, sched.PolicyRTB, sched.PolicyRR}[r.Intn(5)]
